@@ -491,7 +491,7 @@ func (g *PG) call(c genCtx) string {
 
 func (g *PG) callback(c genCtx) string {
 	fb := g.fnBody(c)
-	switch g.n(0, 9, "cbshape") {
+	switch g.n(0, 10, "cbshape") {
 	case 0:
 		return "[1,2].forEach(function(x){" + fb + "});"
 	case 1:
@@ -510,8 +510,10 @@ func (g *PG) callback(c genCtx) string {
 		return "JSON.stringify([1,2],function(k,v){" + fb + "return v});"
 	case 8:
 		return "JSON.parse('[1,2]',function(k,v){" + fb + "return v});"
-	default:
+	case 9:
 		return "[1,2].some(function(x){" + fb + "return false});"
+	default:
+		return "S.n+=hreflect(2,function(x){" + fb + "return x});"
 	}
 }
 
